@@ -1,9 +1,10 @@
 package main
 
 import (
-	"sort"
 	"fmt"
 	"go/token"
+	"go/types"
+	"sort"
 	"strings"
 
 	"golang.org/x/tools/go/ssa"
@@ -112,7 +113,7 @@ func init() {
 	register(&Prop{
 		ID:         "C07",
 		Title:      "Update expressions apply exactly their actions and nothing else",
-		Decided:    "(R1) the update parser, the action dispatch and the clause-continuation list agree on the four actions SET, ADD, REMOVE, DELETE, and + / − are the only arithmetic operators; (R2) per action, the effects reachable from its handler are the ones the action may have: SET assigns (attribute or path), REMOVE removes, ADD adds to a number/set or creates the attribute only when it is undefined, DELETE removes set members and never creates an attribute; (R3) on a left-hand side the handler does not support, every handler returns an error object – never a silent success without effect; (R4) the working environment is applied to the item only after parse and evaluation succeeded (shared with C08.R2); (R5) 'removed means gone': when the environment is written back, attributes of the item that the environment no longer holds are deleted; (R6) 'nothing else changed': only attributes targeted by an action are written back; (R7) '+' computes left + right and '−' left − right, in that order; (R8) every right-hand side reads the pre-update item (two-phase evaluation); (R9) because the write-back re-serialises every attribute (R6), an untouched attribute keeps its type only if every object kind writes its type-carrying field non-nil, also when empty (= C10.R7 on the object side); (R10) the functions usable in an update (list_append, if_not_exists, …) and the arithmetic of SET build new objects: none of them stores into an object it received as an operand, because operands are the environment's own objects of OTHER attributes.",
+		Decided:    "(R1) the update parser, the action dispatch and the clause-continuation list agree on the four actions SET, ADD, REMOVE, DELETE, and + / − are the only arithmetic operators; (R2) per action, the effects reachable from its handler are the ones the action may have: SET assigns (attribute or path), REMOVE removes, ADD adds to a number/set or creates the attribute only when it is undefined, DELETE removes set members and never creates an attribute; (R3) on a left-hand side the handler does not support, every handler returns an error object – never a silent success without effect; (R4) the working environment is applied to the item only after parse and evaluation succeeded (shared with C08.R2); (R5) 'removed means gone': when the environment is written back, attributes of the item that the environment no longer holds are deleted; (R6) 'nothing else changed': only attributes targeted by an action are written back; (R7) '+' computes left + right and '−' left − right, in that order; (R8) every right-hand side reads the pre-update item (two-phase evaluation); (R9) because the write-back re-serialises every attribute (R6), an untouched attribute keeps its type only if every object kind writes its type-carrying field non-nil, also when empty (= C10.R7 on the object side); (R10) the functions usable in an update (list_append, if_not_exists, …) and the arithmetic of SET build new objects: none of them stores into an object it received as an operand, because operands are the environment's own objects of OTHER attributes; (R12) if_not_exists keeps an existing attribute of type NULL: existence is decided by the undefined test (= C06.R5 at that function).",
 		NotDecided: "the resulting values themselves: list_append / if_not_exists results, nested path semantics, set arithmetic, number formatting (C12).",
 		Rules: []RuleDef{
 			{ID: "R1", Desc: "the four actions agree across parser, dispatch and continuation list (T-TABLE)", Run: c07R1},
@@ -143,6 +144,7 @@ func init() {
 			}},
 			{ID: "R10", Desc: "functions of the update grammar do not modify their operands (T-PURE)", Run: c07R10},
 			{ID: "R11", Desc: "SET stores a copy of its operand, not the operand's own object (T-COPY)", Run: c07R11},
+			{ID: "R12", Desc: "if_not_exists decides existence with the undefined test, not the NULL tag (= C06.R5)", Run: aliasRule("R12", c06R5, func(c string) bool { return strings.Contains(strings.ToLower(c), "ifnotexists") })},
 		},
 	})
 }
@@ -654,53 +656,7 @@ func c07R10(e *Engine) {
 		}
 		n++
 		construct := e.fname(fn) + ":operands-unmodified"
-		// values derived from the parameters: elements, type assertions, field loads, phis
-		der := map[ssa.Value]bool{}
-		for _, p := range fn.Params {
-			der[p] = true
-		}
-		for changed := true; changed; {
-			changed = false
-			instrs(fn, func(in ssa.Instruction) {
-				v, ok := in.(ssa.Value)
-				if !ok || der[v] {
-					return
-				}
-				from := false
-				switch x := in.(type) {
-				case *ssa.TypeAssert:
-					from = der[x.X]
-				case *ssa.Extract:
-					from = der[x.Tuple]
-				case *ssa.UnOp:
-					from = x.Op == token.MUL && der[x.X]
-				case *ssa.IndexAddr:
-					from = der[x.X]
-				case *ssa.FieldAddr:
-					from = der[x.X]
-				case *ssa.Index:
-					from = der[x.X]
-				case *ssa.Field:
-					from = der[x.X]
-				case *ssa.Slice:
-					from = der[x.X]
-				case *ssa.Lookup:
-					from = der[x.X]
-				case *ssa.ChangeType:
-					from = der[x.X]
-				case *ssa.Phi:
-					for _, ed := range x.Edges {
-						if der[ed] {
-							from = true
-						}
-					}
-				}
-				if from {
-					der[v] = true
-					changed = true
-				}
-			})
-		}
+		der := derivedFrom(fn, fn.Params)
 		bad := ""
 		instrs(fn, func(in ssa.Instruction) {
 			switch x := in.(type) {
@@ -801,6 +757,8 @@ func c07R11(e *Engine) {
 			}
 			if !fresh {
 				bad = "the value stored at " + e.ipos(c) + " comes from " + e.fname(vc.Call.StaticCallee()) + ", which builds no new object"
+			} else if why := e.returnsOperandUncopied(vc.Call.StaticCallee()); why != "" {
+				bad = e.fname(vc.Call.StaticCallee()) + " " + why
 			}
 		default:
 			bad = "the value stored at " + e.ipos(c) + " is not the result of a copying function"
@@ -815,4 +773,146 @@ func c07R11(e *Engine) {
 	default:
 		e.pass("R11", construct, e.pos(set.Pos()), "%d storing call(s) store the result of a copying function", n)
 	}
+}
+
+// derivedFrom: values of fn reached from the given roots by type assertion, field/element selection, dereference, slicing
+// and phis (the memory those roots give access to).
+func derivedFrom(fn *ssa.Function, roots []*ssa.Parameter) map[ssa.Value]bool {
+	der := map[ssa.Value]bool{}
+	for _, p := range roots {
+		der[p] = true
+	}
+	for changed := true; changed; {
+		changed = false
+		instrs(fn, func(in ssa.Instruction) {
+			v, ok := in.(ssa.Value)
+			if !ok || der[v] {
+				return
+			}
+			from := false
+			switch x := in.(type) {
+			case *ssa.TypeAssert:
+				from = der[x.X]
+			case *ssa.Extract:
+				from = der[x.Tuple]
+			case *ssa.UnOp:
+				from = x.Op == token.MUL && der[x.X]
+			case *ssa.IndexAddr:
+				from = der[x.X]
+			case *ssa.FieldAddr:
+				from = der[x.X]
+			case *ssa.Index:
+				from = der[x.X]
+			case *ssa.Field:
+				from = der[x.X]
+			case *ssa.Slice:
+				from = der[x.X]
+			case *ssa.Lookup:
+				from = der[x.X]
+			case *ssa.ChangeType:
+				from = der[x.X]
+			case *ssa.Phi:
+				for _, ed := range x.Edges {
+					if der[ed] {
+						from = true
+					}
+				}
+			}
+			if from {
+				der[v] = true
+				changed = true
+			}
+		})
+	}
+	return der
+}
+
+// mutableObjectTypes: the object types of the evaluator that have a method changing the receiver in place.
+func (e *Engine) mutableObjectTypes() map[*types.Named]string {
+	out := map[*types.Named]string{}
+	for _, fn := range e.funcs("lang") {
+		if fn.Signature.Recv() == nil || fn.Parent() != nil || len(fn.Params) == 0 {
+			continue
+		}
+		nt := namedOf(fn.Signature.Recv().Type())
+		if nt == nil {
+			continue
+		}
+		der := derivedFrom(fn, fn.Params[:1])
+		instrs(fn, func(in ssa.Instruction) {
+			switch x := in.(type) {
+			case *ssa.Store:
+				if der[x.Addr] {
+					out[nt] = e.fname(fn)
+				}
+			case *ssa.MapUpdate:
+				if der[x.Map] {
+					out[nt] = e.fname(fn)
+				}
+			case *ssa.Call:
+				if n := staticCalleeName(x); (n == "builtin.delete" || n == "builtin.copy") && der[x.Call.Args[0]] {
+					out[nt] = e.fname(fn)
+				}
+			}
+		})
+	}
+	return out
+}
+
+// returnsOperandUncopied: the copying function g hands its parameter back. That is harmless when the conversion it
+// attempted failed (non-data objects) or when the object's type has no method that changes it in place; for a mutable type
+// (Number.Add does i.Value += …) the "copy" still is the operand. Returns "" when every such return is justified.
+func (e *Engine) returnsOperandUncopied(g *ssa.Function) string {
+	if g == nil || len(g.Params) == 0 {
+		return ""
+	}
+	mut := e.mutableObjectTypes()
+	der := derivedFrom(g, g.Params)
+	for _, r := range returnsOf(g) {
+		v := retVals(r)[0]
+		if !der[strip(v)] && !der[v] {
+			continue
+		}
+		// justification per incoming edge of the returning block (a type switch joins its cases in one block)
+		type edge struct{ from, to *ssa.BasicBlock }
+		var edges []edge
+		if len(r.Block().Preds) <= 1 {
+			edges = append(edges, edge{nil, r.Block()})
+		} else {
+			for _, p := range r.Block().Preds {
+				edges = append(edges, edge{p, r.Block()})
+			}
+		}
+		for _, ed := range edges {
+			var conds []Cond
+			if ed.from == nil {
+				conds = condsAt(ed.to)
+			} else {
+				conds = edgeFacts(ed.from, ed.to)
+			}
+			justified := false
+			for _, cd := range conds {
+				cd = normCond(cd)
+				// conversion failed
+				if x, nonNilOnTrue, ok := nilTest(cd.V); ok && cd.Val == nonNilOnTrue && isErrorType(x.Type()) {
+					justified = true
+				}
+				// known to be of an immutable kind
+				if ex, ok := cd.V.(*ssa.Extract); ok && cd.Val && ex.Index == 1 {
+					if ta, ok := ex.Tuple.(*ssa.TypeAssert); ok && der[ta.X] {
+						if nt := namedOf(ta.AssertedType); nt != nil {
+							if by, isMut := mut[nt]; isMut {
+								return "returns its operand unchanged for " + nt.Obj().Name() + " objects, which " + by + " changes in place"
+							}
+							justified = true
+						}
+					}
+				}
+			}
+			if !justified {
+				return "returns its operand itself at " + e.ipos(r) + " on a path that is neither a failed conversion nor restricted to immutable object kinds"
+			}
+		}
+	}
+	return ""
 }
